@@ -61,9 +61,9 @@ func c09One(ctx *core.Ctx, kind string, r *ref.Rendered, lc *layoutCase) {
 var c09Kinds = []string{"mixed-operators", "direct-not-first", "empty-restrictions", "wildcard-with-relation", "duplicate-relation",
 	"duplicate-condition", "duplicate-parameter", "extend-in-model", "extended-twice", "headers", "bad-container-type"}
 
-// c09Sweeps: every injection of the catalogue into a small tail (one type, one condition) that FOLLOWS a size-sweep model:
-// whatever the large part before it does to buffers, caches and indices, the violation behind it must still be reported.
-func c09Sweeps(ctx *core.Ctx) {
+// sweepTailInjections: every injection of the catalogue into a small tail (one type, one condition) that FOLLOWS a size-sweep
+// model. mark is the source-map key of the name an error must point at, shifted behind the sweep's declarations.
+func sweepTailInjections(sizes []int, f func(k int, tag, kind, mark string, m *ref.Model) bool) {
 	tail := gen.Tagged{Tag: "tail", M: &ref.Model{Schema: "1.1", Types: []ref.TypeDef{{Name: "zz_tail", Rels: []ref.Relation{
 		{Name: "a", Rw: ref.U(ref.T(), ref.I(ref.C("b"), ref.C("c"))), Restr: []ref.Restriction{{Type: "user"}, {Type: "user", Condition: "zz_cond"}}},
 		{Name: "b", Rw: ref.T(), Restr: []ref.Restriction{{Type: "user"}}},
@@ -71,31 +71,65 @@ func c09Sweeps(ctx *core.Ctx) {
 	}}}, Conds: []ref.Condition{{Name: "zz_cond", Params: []ref.Param{{Name: "x", Type: "int"}, {Name: "l", Type: "list", Generic: "string"}}, Expr: "x < 1"}}}}
 	injs := gen.Injections(tail)
 	k := 1 << 26
+	for _, sw := range gen.SweepModelsDSL(sizes) {
+		nT, nC := len(sw.M.Types), len(sw.M.Conds)
+		for _, inj := range injs {
+			k++
+			if inj.Kind == "headers" || inj.Kind == "extend-in-model" {
+				continue // document-level injections do not depend on what precedes them
+			}
+			im := *inj.M
+			im.Types = append(append([]ref.TypeDef{}, sw.M.Types...), inj.M.Types...)
+			im.Conds = append(append([]ref.Condition{}, sw.M.Conds...), inj.M.Conds...)
+			if !f(k, sw.Tag+" followed by "+inj.Tag, inj.Kind, shiftMark(inj.Mark, nT, nC), &im) {
+				return
+			}
+		}
+	}
+}
+
+// shiftMark moves a source-map key (T<i>, R<i>.<j>, C<i>, P<i>.<j>) behind nT types / nC conditions.
+func shiftMark(mark string, nT, nC int) string {
+	if mark == "" {
+		return ""
+	}
+	var i, j int
+	switch mark[0] {
+	case 'T':
+		fmt.Sscanf(mark, "T%d", &i)
+		return ref.MarkT(i + nT)
+	case 'R':
+		fmt.Sscanf(mark, "R%d.%d", &i, &j)
+		return ref.MarkR(i+nT, j)
+	case 'C':
+		fmt.Sscanf(mark, "C%d", &i)
+		return ref.MarkC(i + nC)
+	case 'P':
+		fmt.Sscanf(mark, "P%d.%d", &i, &j)
+		return ref.MarkP(i+nC, j)
+	}
+	return mark
+}
+
+// c09Sweeps: whatever the large part before it does to buffers, caches and indices, the violation behind it must still be
+// reported.
+func c09Sweeps(ctx *core.Ctx) {
 	sizes := []int{13, 65, 100}
 	if ctx.Thorough() {
 		sizes = gen.SweepSizesSmall
 	}
-	for _, sw := range gen.SweepModelsDSL(sizes) {
-		for _, inj := range injs {
-			k++
-			if !ctx.Mine(k) {
-				continue
-			}
-			if ctx.Expired() {
-				ctx.Cap("wall-clock cap in the size sweeps")
-				return
-			}
-			if inj.Kind == "headers" || inj.Kind == "extend-in-model" {
-				continue // document-level injections do not depend on what precedes them
-			}
-			ctx.Eval(1)
-			im := *inj.M
-			im.Types = append(append([]ref.TypeDef{}, sw.M.Types...), inj.M.Types...)
-			im.Conds = append(append([]ref.Condition{}, sw.M.Conds...), inj.M.Conds...)
-			tag := sw.Tag + " followed by " + inj.Tag
-			forLayouts(ctx, tag, &im, 0, 0, func(r *ref.Rendered, lc *layoutCase) { c09One(ctx, inj.Kind, r, lc); ctx.Flag("c09:sweeps") })
+	sweepTailInjections(sizes, func(k int, tag, kind, _ string, m *ref.Model) bool {
+		if !ctx.Mine(k) {
+			return true
 		}
-	}
+		if ctx.Expired() {
+			ctx.Cap("wall-clock cap in the size sweeps")
+			return false
+		}
+		ctx.Eval(1)
+		forLayouts(ctx, tag, m, 0, 0, func(r *ref.Rendered, lc *layoutCase) { c09One(ctx, kind, r, lc); ctx.Flag("c09:sweeps") })
+		return true
+	})
 }
 
 func c09Run(ctx *core.Ctx) {
